@@ -408,9 +408,24 @@ class _SymNum(_Proxy):
 class SymInt(_SymNum):
     PLACEHOLDER = "<?int>"
 
+    def __floor__(self):
+        return self
+
+    def __ceil__(self):
+        return self
+
+    def __trunc__(self):
+        return self
+
 
 class SymReal(_SymNum):
     PLACEHOLDER = "<?float>"
+
+    def __floor__(self):
+        return SymInt(z3.ToInt(self.z))
+
+    def __ceil__(self):
+        return SymInt(-z3.ToInt(-self.z))
 
 
 def wrap_num(z):
